@@ -7,6 +7,8 @@ NATIVE_ONLY_KINDS = ['pytest_skip_comment']
 # kinds whose verdict is not fixed by construction but must be the SAME in both front ends: a doctest that needs a module which is
 # compiled into the interpreter (no file), which one front end's process may have imported and the other not
 REQ_MODULE_KINDS = ['requires:faulthandler', 'requires:gc', 'requires:sys', 'requires:json', 'requires:xdverif_no_such_module', 'requires:_thread', 'requires:atexit']
+# kinds for the front ends run as subprocesses only (they change process-wide state: the harness process itself must not run them)
+SUBPROCESS_ONLY_KINDS = ['chdir_then_pass', 'chdir_then_fail']
 DISABLE_WORDS = ['# DISABLE_DOCTEST', '#DISABLE', '#  unstable', '# FAILING', '#SCRIPT', '# slow_doctest']
 
 
@@ -22,6 +24,10 @@ def doc_lines(kind, n):
         return [">>> x = %d" % n, ">>> raise ValueError('x%d')" % n]
     if kind == 'all_skipped':
         return ['>>> # xdoctest: +SKIP', ">>> print('s%d')" % n, 'never compared']
+    if kind in ('chdir_then_pass', 'chdir_then_fail'):
+        # the doctest leaves the process in another working directory (a function under test that chdirs): the doctests after it
+        # still belong to the same module file
+        return ['>>> import os, tempfile', '>>> os.chdir(tempfile.gettempdir())', ">>> print('c%d')" % n, ('c%d' if kind.endswith('pass') else 'WRONG%d') % n]
     if kind == 'requires_unmet_block':
         # a block directive whose condition is not met: everything after it is skipped, in THIS doctest only
         return ['>>> # xdoctest: +REQUIRES(module:xdverif_no_such_module_%d)' % n, ">>> print('u%d')" % n, 'never compared']
@@ -60,7 +66,7 @@ def doc_lines(kind, n):
 # verdict when the doctest is run
 VERDICT = {'pass': 'passed', 'fail_output': 'failed', 'fail_exc': 'failed', 'all_skipped': 'skipped',
            'partly_skipped': 'passed', 'expected_exc': 'passed', 'disabled': 'failed', 'comment_only': 'skipped',
-           'note_then_skip': 'skipped', 'skip_then_note': 'skipped', 'fail_directive_first': 'failed', 'fail_compile_first': 'failed', 'late_disable_word': 'passed', 'warn_then_fail': 'failed', 'warn_then_pass': 'passed', 'pytest_skip_comment': 'failed', 'requires_unmet_block': 'skipped'}
+           'note_then_skip': 'skipped', 'skip_then_note': 'skipped', 'fail_directive_first': 'failed', 'fail_compile_first': 'failed', 'late_disable_word': 'passed', 'warn_then_fail': 'failed', 'warn_then_pass': 'passed', 'pytest_skip_comment': 'failed', 'requires_unmet_block': 'skipped', 'chdir_then_pass': 'passed', 'chdir_then_fail': 'failed'}
 
 
 def module_source(kinds, layout='functions'):
